@@ -551,7 +551,9 @@ func evalWhileLoopStmt(vm *r.VM, node *syntax.WhileLoopStmt) error {
 	// set context's current scope with new one
 
 	for {
-		// #1. first execute expr
+		// #1. first execute expr (the statement being executed is the loop itself again,
+		// not the last statement of the previous pass)
+		vm.SetCurrentLine(node.GetCurrentLine())
 		trueExpr, err := evalExpression(vm, node.TrueExpr)
 		if err != nil {
 			return err
